@@ -181,9 +181,9 @@ Proof.
 Qed.
 
 Definition witness_before_fix : rcase :=
-  {| unit_on := true; globals := [];
-     fams := [{| f_kind := KCounter; f_name := lit "reqs"; f_desc := Some (lit "total", Some Seconds);
-                 f_series := [{| s_labels := []; s_value := lit "3"; s_points := []; s_sum := []; s_count := [] |}] |}] |}.
+  {| unit_on := true; gbuckets := false; overrides := []; globals := [];
+     fams := [{| f_kind := FCounter; f_name := lit "reqs"; f_desc := Some (lit "total", Some Seconds);
+                 f_series := [{| s_labels := []; s_value := lit "3"; s_points := []; s_buckets := []; s_sum := []; s_count := [] |}] |}] |}.
 
 Theorem family_structure_refuted_before_fix :
   exists rc, wf_rcase rc = true /\ exposition_ok (render_text false rc) = false
@@ -191,14 +191,17 @@ Theorem family_structure_refuted_before_fix :
 Proof. exists witness_before_fix. vm_compute. auto. Qed.
 
 Definition example_case : rcase :=
-  {| unit_on := true; globals := [(lit "g:", lit "a""b")];
-     fams := [{| f_kind := KHistogram; f_name := lit "1 lat"; f_desc := Some ([92; 10; 34], Some Seconds);
+  {| unit_on := true; gbuckets := false; overrides := [(MFull, lit "lat_seconds"); (MSuffix, lit " lat")];
+     globals := [(lit "g:", lit "a""b")];
+     fams := [{| f_kind := FDist; f_name := lit "1 lat"; f_desc := Some ([92; 10; 34], Some Seconds);
                  f_series := [{| s_labels := [(lit "p{", [92; 10; 34; 92])]; s_value := [];
-                                 s_points := [(lit "0.5", lit "1")]; s_sum := lit "7"; s_count := lit "2" |}] |};
-              {| f_kind := KCounter; f_name := lit "reqs"; f_desc := None;
-                 f_series := [{| s_labels := []; s_value := lit "3"; s_points := []; s_sum := []; s_count := [] |}] |}] |}.
+                                 s_points := [(lit "0.5", lit "0")]; s_buckets := [(lit "0.5", lit "1")];
+                                 s_sum := lit "7"; s_count := lit "2" |}] |};
+              {| f_kind := FCounter; f_name := lit "reqs"; f_desc := None;
+                 f_series := [{| s_labels := []; s_value := lit "3"; s_points := []; s_buckets := []; s_sum := []; s_count := [] |}] |}] |}.
 
 Example example_satisfiable :
   wf_rcase example_case = true /\ exposition_ok (render_text true example_case) = true
-  /\ exposition_ok (render_text false example_case) = false.
+  /\ exposition_ok (render_text false example_case) = false
+  /\ map (type_kind (gbuckets example_case) (overrides example_case)) (fams example_case) = [KHistogram; KCounter].
 Proof. vm_compute. auto. Qed.
